@@ -151,15 +151,27 @@ CHECKS.update({
     note="Known finding D-REGION-REF-OFF-BODY attributed by an exact classifier; multi-element operations are not required to be atomic.",
     design="DESIGN.md section 4, C15"),
   "C18": dict(
-    technique="runtime monitoring: exception-site observer around every stage (reader, ISD sequence, writers, LCD filter) with a per-case interval-timer watchdog, over valid, corpus and structure-aware mutated inputs of the five formats",
+    technique="runtime monitoring: exception-site observer around every stage (reader, ISD sequence, writers, LCD filter) with a per-case CPU-time watchdog, over valid, corpus, structure-aware mutated and token-soup inputs of the five formats",
     text="Each input (generated valid files, bundled corpus, token-level and byte-level mutations, hostile snippets, STL block surgery) is read under a "
          "sampled reader configuration; only the documented failures are accepted from readers; every returned document goes through ISD generation "
          "(cached and uncached), sampled SRT/VTT/IMSC writer configurations, the LCD filter and the writers again; any other exception, identified by "
-         "type and innermost ttconv frame, or a stage that does not return within 30 s, is a violation.",
+         "type and innermost ttconv frame, or a case that does not finish within 120 s of its own CPU time, is a violation.",
     note="Known finding D-VTT-RUBY-IN-SPAN attributed by an exact classifier; configurations sampled per input; termination bounded by the watchdog.",
     design="DESIGN.md section 4, C18"),
 })
-NOT_CLAIMED = {"C04": "check under construction (reference TTML reader + schema generator being built and validated); not claimed until silent on the unchanged tree and sensitive to the planned mutants"}
+CHECKS.update({
+  "C04": dict(
+    technique="runtime monitoring: reference-interpreter oracle (TTML2/IMSC 1.1 reader written independently, vt/ref/ttml.py) compared with imsc.reader.to_model through the reference ISD at every boundary instant, plus single-attribute corruption probes with a log-record monitor",
+    text="Schema-generated XML documents (every element kind, begin/dur/end in every combination and time-expression syntax under 7 frame rates and "
+         "4 tick rates, par/seq nested to depth 4 with offset containers, set, region timing, inline/nested/referential/chained styles with "
+         "diamonds and missing references, initial, xml:space/xml:lang mixes, mixed content, ruby containers) are read by the real reader and by the "
+         "reference interpreter; both results are viewed through the same reference ISD at all boundary instants +- delta and must agree; each "
+         "document is also read with one attribute corrupted (malformed value or unknown attribute): no exception, same presentation as without "
+         "the attribute, and a WARNING/ERROR record from ttconv.imsc.* for malformed known attributes.",
+    note="Trusts vt/ref/ttml.py and vt/ref/isd.py; abstentions (ambiguous TTML2 clauses, constructs not generated) listed in evidence assumptions.",
+    design="DESIGN.md section 4, C04"),
+})
+NOT_CLAIMED = {}
 
 def main():
   props = [json.loads(l) for l in open(os.path.join(HERE, "properties.jsonl"))]
